@@ -66,6 +66,9 @@ TEMPLATES = {
                   '<field name="f{i}" type="string" length="4" padded="true" optional="true"/>', True),
     "optbrkreq": ('<field name="a{i}" type="short" optional="true"/><break/><field name="f{i}" type="char"/>'
                   '<array name="g{i}" type="char" length="2"/>', True),
+    "optlenstroff": ('<length name="n{i}" type="short" offset="2" optional="true"/>'
+                     '<field name="f{i}" type="encoded_string" length="n{i}" optional="true"/>', False),
+    "opthard": ('<field name="a{i}" type="char" optional="true"/><field name="f{i}" type="short" optional="true">7</field>', False),
     "optchar": ('<field name="f{i}" type="char" optional="true"/>', False),
     "optstr": ('<field name="f{i}" type="string" optional="true"/>', False),
     "optenum": ('<field name="f{i}" type="E" optional="true"/>', False),
